@@ -61,7 +61,11 @@ def run_variant(job):
                 return (variant['name'], 'not-applicable', 'anchor text occurs {} times in {}'.format(text.count(edit['old']), edit['file']), [])
             text = text.replace(edit['old'], edit['new'])
             try:
-                compile(text, path, 'exec')
+                import ast as _ast
+                import warnings as _w
+                with _w.catch_warnings():
+                    _w.simplefilter('ignore')
+                    _ast.parse(text, filename=path)
             except SyntaxError as err:
                 return (variant['name'], 'broken-variant', str(err), [])
             with open(path, 'w', encoding='utf-8') as handle:
